@@ -796,3 +796,121 @@ cJSON *shim_chain_node(cJSON *n, long index)
     }
     return n;
 }
+
+/* ------------------------------------------------------------------ */
+/* C02: exhaustive \uXXXX sweep.  For every BMP code point (except U+0000 and surrogates) and for the surrogate
+ * pairs hi in [hi_lo,hi_hi) x all 1024 low surrogates: the escape, spelt with lower- or upper-case hex digits,
+ * must decode to the UTF-8 bytes computed by the encoder below (written from RFC 3629). */
+static size_t ref_utf8(unsigned long cp, unsigned char *out)
+{
+    if (cp < 0x80)
+    {
+        out[0] = (unsigned char)cp;
+        return 1;
+    }
+    if (cp < 0x800)
+    {
+        out[0] = (unsigned char)(0xC0 | (cp >> 6));
+        out[1] = (unsigned char)(0x80 | (cp & 0x3F));
+        return 2;
+    }
+    if (cp < 0x10000)
+    {
+        out[0] = (unsigned char)(0xE0 | (cp >> 12));
+        out[1] = (unsigned char)(0x80 | ((cp >> 6) & 0x3F));
+        out[2] = (unsigned char)(0x80 | (cp & 0x3F));
+        return 3;
+    }
+    out[0] = (unsigned char)(0xF0 | (cp >> 18));
+    out[1] = (unsigned char)(0x80 | ((cp >> 12) & 0x3F));
+    out[2] = (unsigned char)(0x80 | ((cp >> 6) & 0x3F));
+    out[3] = (unsigned char)(0x80 | (cp & 0x3F));
+    return 4;
+}
+
+static int escape_case(unsigned long cp, int upper, int as_key, sweep_out_t *o)
+{
+    char text[64];
+    unsigned char want[8];
+    size_t wl = ref_utf8(cp, want);
+    cJSON *t;
+    const char *got;
+    const char *fmt1 = upper ? "\\u%04lX" : "\\u%04lx";
+    char esc[32];
+    want[wl] = 0;
+    if (cp >= 0x10000)
+    {
+        unsigned long v = cp - 0x10000;
+        char a[16], b[16];
+        sprintf(a, fmt1, 0xD800 + (v >> 10));
+        sprintf(b, upper ? "\\u%04lx" : "\\u%04lX", 0xDC00 + (v & 0x3FF)); /* mixed case across the pair */
+        sprintf(esc, "%s%s", a, b);
+    }
+    else
+    {
+        sprintf(esc, fmt1, cp);
+    }
+    if (as_key)
+    {
+        sprintf(text, "{\"a%sz\":1}", esc);
+    }
+    else
+    {
+        sprintf(text, "[\"a%sz\"]", esc);
+    }
+    t = cJSON_ParseWithLength(text, strlen(text));
+    o->iterations++;
+    if (t == NULL || t->child == NULL)
+    {
+        cJSON_Delete(t);
+        fail(o, 1, (long)cp, upper, as_key, "valid escape rejected");
+        return 0;
+    }
+    got = as_key ? t->child->string : t->child->valuestring;
+    if (got == NULL || got[0] != 'a' || memcmp(got + 1, want, wl) != 0 || got[1 + wl] != 'z' || got[2 + wl] != 0)
+    {
+        cJSON_Delete(t);
+        fail(o, 2, (long)cp, upper, as_key, "escape decoded to the wrong bytes");
+        return 0;
+    }
+    cJSON_Delete(t);
+    return 1;
+}
+
+void sweep_unicode_escapes(int part, int nparts, int all_pairs, sweep_out_t *o)
+{
+    unsigned long cp;
+    memset(o, 0, sizeof(*o));
+    for (cp = 1; cp < 0x10000 && o->code == 0; cp++)
+    {
+        if (cp >= 0xD800 && cp <= 0xDFFF)
+        {
+            continue;
+        }
+        if ((int)(cp % (unsigned long)nparts) != part)
+        {
+            continue;
+        }
+        escape_case(cp, (int)(cp & 1), (int)((cp >> 1) & 1), o);
+        escape_case(cp, !(cp & 1), !((cp >> 1) & 1), o);
+        o->nontrivial++;
+    }
+    for (cp = 0x10000; cp < 0x110000 && o->code == 0; cp++)
+    {
+        if ((int)(cp % (unsigned long)nparts) != part)
+        {
+            continue;
+        }
+        /* quick tier: the boundaries of every high surrogate row plus a stride; thorough: every pair */
+        if (!all_pairs)
+        {
+            unsigned long low = (cp - 0x10000) & 0x3FF;
+            if (!(low == 0 || low == 0x3FF || low == 1 || ((cp * 2654435761UL) >> 7) % 16 == 0))
+            {
+                continue;
+            }
+        }
+        escape_case(cp, (int)(cp & 1), (int)((cp >> 3) & 1), o);
+        o->nontrivial++;
+    }
+}
